@@ -120,9 +120,11 @@ func (b *Backend) Conn(i int) *BConn {
 
 // WaitConn waits until at least n connections were accepted.
 func (b *Backend) WaitConn(n int, timeout time.Duration) bool {
-	t := time.AfterFunc(timeout, func() { b.mu.Lock(); b.cond.Broadcast(); b.mu.Unlock() })
-	defer t.Stop()
+	// the deadline is fixed first and the wake-up comes a little after it: a wake-up that arrives before the deadline
+	// has passed would leave the waiter asleep for good
 	deadline := time.Now().Add(timeout)
+	t := time.AfterFunc(timeout+5*time.Millisecond, func() { b.mu.Lock(); b.cond.Broadcast(); b.mu.Unlock() })
+	defer t.Stop()
 	b.mu.Lock()
 	defer b.mu.Unlock()
 	for len(b.cs) < n {
@@ -148,9 +150,11 @@ func (c *BConn) Bytes() []byte {
 
 // WaitRecv waits until at least n bytes were received in total.
 func (c *BConn) WaitRecv(n int, timeout time.Duration) bool {
-	t := time.AfterFunc(timeout, func() { c.mu.Lock(); c.cond.Broadcast(); c.mu.Unlock() })
-	defer t.Stop()
+	// the deadline is fixed first and the wake-up comes a little after it: a wake-up that arrives before the deadline
+	// has passed would leave the waiter asleep for good
 	deadline := time.Now().Add(timeout)
+	t := time.AfterFunc(timeout+5*time.Millisecond, func() { c.mu.Lock(); c.cond.Broadcast(); c.mu.Unlock() })
+	defer t.Stop()
 	c.mu.Lock()
 	defer c.mu.Unlock()
 	for len(c.recv) < n {
@@ -165,9 +169,11 @@ func (c *BConn) WaitRecv(n int, timeout time.Duration) bool {
 // WaitClosed waits for the gateway side to close; returns "eof", "rst",
 // "closed" or "" on timeout.
 func (c *BConn) WaitClosed(timeout time.Duration) string {
-	t := time.AfterFunc(timeout, func() { c.mu.Lock(); c.cond.Broadcast(); c.mu.Unlock() })
-	defer t.Stop()
+	// the deadline is fixed first and the wake-up comes a little after it: a wake-up that arrives before the deadline
+	// has passed would leave the waiter asleep for good
 	deadline := time.Now().Add(timeout)
+	t := time.AfterFunc(timeout+5*time.Millisecond, func() { c.mu.Lock(); c.cond.Broadcast(); c.mu.Unlock() })
+	defer t.Stop()
 	c.mu.Lock()
 	defer c.mu.Unlock()
 	for c.closed == "" {
